@@ -16,6 +16,7 @@ using C = cappuccino::ut_map<uint64_t, uint64_t, cappuccino::thread_safe::TS>;
 #define T_POLICY P_NONE
 #define T_TTL 2
 #define T_PEEK 0
+#define T_PEEK_KIND 0
 #define T_CAPPED 0
 #define T_PURGE 1
 #define T_HAS_CLEAN 1
